@@ -13,8 +13,14 @@
 
 namespace {
 
-enum { K_SLEEP, K_RECV_PAIR, K_RECV_PULL, K_RECV_SUB, K_RECV_REP, K_RECV_BUS, K_SEND_PUSH, K_SEND_PAIR, K_RECV_REQCTX, K_DIAL, K_DEVICE, K_RECV_SURVEYOR, K_STREAM_RECV, K_STREAM_SEND, K_STREAM_ACCEPT, K_HTTP_TRANSACT, K_WS_DIAL, K_SEND_XREQ, K_NKINDS };
-static const char *kKindName[] = {"sleep", "recv_pair", "recv_pull", "recv_sub", "recv_rep", "recv_bus", "send_push", "send_pair", "recv_reqctx", "dial", "device", "recv_surveyor", "stream_recv", "stream_send", "stream_accept", "http_transact", "ws_dial", "send_xreq"};
+enum { K_SLEEP, K_RECV_PAIR, K_RECV_PULL, K_RECV_SUB, K_RECV_REP, K_RECV_BUS, K_SEND_PUSH, K_SEND_PAIR, K_RECV_REQCTX, K_DIAL, K_DEVICE, K_RECV_SURVEYOR, K_STREAM_RECV, K_STREAM_SEND, K_STREAM_ACCEPT, K_HTTP_TRANSACT, K_WS_DIAL, K_SEND_XREQ, K_RECV_RESPONDENT, K_RECV_PAIR1, K_RECV_XREP, K_RECV_XSUB, K_RECV_SUBCTX, K_RECV_REPCTX, K_RECV_SURVCTX, K_SEND_REQ, K_SEND_REQCTX, K_SEND_PAIR1, K_NKINDS };
+static const char *kKindName[] = {"sleep", "recv_pair", "recv_pull", "recv_sub", "recv_rep", "recv_bus", "send_push", "send_pair", "recv_reqctx", "dial", "device", "recv_surveyor", "stream_recv", "stream_send", "stream_accept", "http_transact", "ws_dial", "send_xreq", "recv_respondent", "recv_pair1", "recv_xrep", "recv_xsub", "recv_subctx", "recv_repctx", "recv_survctx", "send_req", "send_reqctx", "send_pair1"};
+
+static bool
+kind_uses_ctx(int k)
+{
+	return k == K_RECV_REQCTX || k == K_RECV_SUBCTX || k == K_RECV_REPCTX || k == K_RECV_SURVCTX || k == K_SEND_REQCTX;
+}
 
 struct Mon {
 	nng_aio   *aio = nullptr;
@@ -62,6 +68,7 @@ struct Mon {
 	bool               in_presleep = false;
 	bool               presleep = false; // the aio was used for a sleep that ran to its natural end first
 	bool               closer_present = false;
+	bool               dialed_peer = false;
 	const char *fail_sig = nullptr;
 	char        fail_msg[300];
 };
@@ -106,7 +113,7 @@ mon_cb(void *arg)
 		M->times[i]   = vs_now();
 	}
 	// (a SURVEYOR receive is additionally bounded by the survey deadline, 30 ms here: C07 judges that)
-	if (rv == NNG_ETIMEDOUT && M->T > 0 && M->kind != K_RECV_SURVEYOR && i < 8 && vs_now() < M->t_sub[i] + (uint64_t) M->T) {
+	if (rv == NNG_ETIMEDOUT && M->T > 0 && M->kind != K_RECV_SURVEYOR && M->kind != K_RECV_SURVCTX && i < 8 && vs_now() < M->t_sub[i] + (uint64_t) M->T) {
 		// One history is a recorded finding with its own signature: an earlier submission on this aio completed at or
 		// after its own deadline, so the expire thread may already have taken that submission's cancel function; when it
 		// finally calls it, the provider finds the *re-submitted* operation pending on the same aio and times it out.
@@ -119,7 +126,7 @@ mon_cb(void *arg)
 		    i + 1, (unsigned long long) (vs_now() - M->t_sub[i]), M->T);
 	}
 	// an operation without a timeout (infinite / socket default, which is infinite here) cannot time out - whatever the aio was used for before
-	if (rv == NNG_ETIMEDOUT && M->T == 0 && M->kind != K_RECV_SURVEYOR && M->kind != K_SLEEP && M->kind != K_DIAL && M->kind != K_WS_DIAL && M->kind != K_HTTP_TRANSACT)
+	if (rv == NNG_ETIMEDOUT && M->T == 0 && M->kind != K_RECV_SURVEYOR && M->kind != K_RECV_SURVCTX && M->kind != K_SLEEP && M->kind != K_DIAL && M->kind != K_WS_DIAL && M->kind != K_HTTP_TRANSACT)
 		mon_fail(M, "C02:timeout-without-timeout", "%s: completed with NNG_ETIMEDOUT after %llu ms although no timeout is configured%s", kKindName[M->kind],
 		    (unsigned long long) (vs_now() - M->t_sub[i < 8 ? i : 0]), M->presleep ? " (the aio was used for a sleep before)" : "");
 	// second operation on the same aio after an idle-time cancel/abort: the stale cancel must have no effect on it
@@ -158,8 +165,8 @@ mon_cb(void *arg)
 	if ((M->kind == K_STREAM_RECV || M->kind == K_STREAM_SEND) && rv == 0 && nng_aio_count(M->aio) == 0)
 		mon_fail(M, "C02:success-without-bytes", "%s completed with success and a count of 0", kKindName[M->kind]);
 	bool is_recv = M->kind == K_RECV_PAIR || M->kind == K_RECV_PULL || M->kind == K_RECV_SUB || M->kind == K_RECV_REP || M->kind == K_RECV_BUS || M->kind == K_RECV_REQCTX ||
-	    M->kind == K_RECV_SURVEYOR;
-	bool is_send = M->kind == K_SEND_PUSH || M->kind == K_SEND_PAIR || M->kind == K_SEND_XREQ;
+	    M->kind == K_RECV_SURVEYOR || (M->kind >= K_RECV_RESPONDENT && M->kind <= K_RECV_SURVCTX);
+	bool is_send = M->kind == K_SEND_PUSH || M->kind == K_SEND_PAIR || M->kind == K_SEND_XREQ || M->kind == K_SEND_REQ || M->kind == K_SEND_REQCTX || M->kind == K_SEND_PAIR1;
 	if (is_recv) {
 		nng_msg *m = nng_aio_get_msg(M->aio);
 		if (rv == 0) {
@@ -203,8 +210,18 @@ submit(Mon *M)
 	case K_RECV_SUB:
 	case K_RECV_REP:
 	case K_RECV_BUS:
+	case K_RECV_RESPONDENT:
+	case K_RECV_PAIR1:
+	case K_RECV_XREP:
+	case K_RECV_XSUB:
 	case K_RECV_SURVEYOR: nng_socket_recv(M->s, M->aio); break;
+	case K_RECV_SUBCTX:
+	case K_RECV_REPCTX:
+	case K_RECV_SURVCTX:
 	case K_RECV_REQCTX: nng_ctx_recv(M->ctx, M->aio); break;
+	case K_SEND_REQCTX: nng_aio_set_msg(M->aio, h_msg(0x02000000u | (uint32_t) M->submissions, 4)); nng_ctx_send(M->ctx, M->aio); break;
+	case K_SEND_REQ:
+	case K_SEND_PAIR1:
 	case K_SEND_PUSH:
 	case K_SEND_PAIR: nng_aio_set_msg(M->aio, h_msg(0x02000000u | (uint32_t) M->submissions, 4)); nng_socket_send(M->s, M->aio); break;
 	case K_DIAL: nng_dialer_start_aio(M->dialer, NNG_FLAG_NONBLOCK, M->aio); break;
@@ -282,6 +299,25 @@ actor_main(void *arg)
 					vr_tag("device_blocked_in_send");
 			}
 			break;
+		case K_RECV_SURVCTX: { // a respondent answers the context's survey
+			nng_msg *m;
+			if (nng_recvmsg(M->peer, &m, NNG_FLAG_NONBLOCK) == 0 && nng_sendmsg(M->peer, m, NNG_FLAG_NONBLOCK) != 0)
+				nng_msg_free(m);
+			break;
+		}
+		case K_SEND_REQ:
+		case K_SEND_REQCTX: // a replier becomes reachable
+			if (!M->dialed_peer) {
+				M->dialed_peer = true;
+				nng_dial(M->peer, "inproc://c02", NULL, NNG_FLAG_NONBLOCK);
+			}
+			break;
+		case K_RECV_RESPONDENT:
+		case K_RECV_PAIR1:
+		case K_RECV_XREP:
+		case K_RECV_XSUB:
+		case K_RECV_SUBCTX:
+		case K_RECV_REPCTX:
 		case K_RECV_PAIR:
 		case K_RECV_PULL:
 		case K_RECV_SUB:
@@ -373,6 +409,7 @@ actor_main(void *arg)
 			}
 			break;
 		}
+		case K_SEND_PAIR1:
 		case K_SEND_PUSH:
 		case K_SEND_PAIR: { // a receiver shows up
 			nng_msg *m;
@@ -398,6 +435,10 @@ actor_main(void *arg)
 		break;
 	case 5: // close the underlying object
 		switch (M->kind) {
+		case K_RECV_SUBCTX:
+		case K_RECV_REPCTX:
+		case K_RECV_SURVCTX:
+		case K_SEND_REQCTX:
 		case K_RECV_REQCTX: nng_ctx_close(M->ctx); M->have_ctx = false; break;
 		case K_DIAL: nng_dialer_close(M->dialer); break;
 		case K_STREAM_RECV:
@@ -467,6 +508,37 @@ exec_c02(const vcase *vc)
 		break;
 	case K_SEND_PUSH: pairup(nng_push0_open, nng_pull0_open, vop_arg(o, 4, 0) != 0); break;
 	case K_SEND_PAIR: pairup(nng_pair0_open, nng_pair0_open, true); break;
+	case K_SEND_PAIR1:
+	case K_RECV_PAIR1: pairup(nng_pair1_open, nng_pair1_open, true); break;
+	case K_RECV_RESPONDENT: pairup(nng_respondent0_open, nng_surveyor0_open, true); break;
+	case K_RECV_XREP: pairup(nng_rep0_open_raw, nng_req0_open, true); break;
+	case K_RECV_XSUB: pairup(nng_sub0_open_raw, nng_pub0_open, true); break;
+	case K_RECV_SUBCTX:
+		pairup(nng_sub0_open, nng_pub0_open, true);
+		H_OK(nng_ctx_open(&M.ctx, M.s));
+		M.have_ctx = true;
+		nng_sub0_ctx_subscribe(M.ctx, "", 0);
+		break;
+	case K_RECV_REPCTX:
+		pairup(nng_rep0_open, nng_req0_open, true);
+		H_OK(nng_ctx_open(&M.ctx, M.s));
+		M.have_ctx = true;
+		break;
+	case K_RECV_SURVCTX:
+		pairup(nng_surveyor0_open, nng_respondent0_open, true);
+		H_OK(nng_ctx_open(&M.ctx, M.s));
+		M.have_ctx = true;
+		nng_ctx_set_ms(M.ctx, NNG_OPT_SURVEYOR_SURVEYTIME, 30);
+		break;
+	case K_SEND_REQ:
+	case K_SEND_REQCTX: // a request submitted while no replier is connected waits in the REQ send queue
+		pairup(nng_req0_open, nng_rep0_open, vop_arg(o, 4, 0) % 2 != 0);
+		M.dialed_peer = vop_arg(o, 4, 0) % 2 != 0;
+		if (M.kind == K_SEND_REQCTX) {
+			H_OK(nng_ctx_open(&M.ctx, M.s));
+			M.have_ctx = true;
+		}
+		break;
 	case K_SEND_XREQ: {
 		// raw REQ with a one-slot send queue towards a raw REP that does not read: one request sits in the pipe, one in the
 		// queue, one writer waits; then the peer takes one message, which frees a slot without waking the waiting writer
@@ -642,6 +714,16 @@ exec_c02(const vcase *vc)
 		nng_aio_set_msg(sa, h_msg(0x03000001u, 0));
 		nng_ctx_send(M.ctx, sa);
 		nng_aio_wait(sa);
+		nng_aio_free(sa);
+	}
+	if (M.kind == K_RECV_SURVCTX) {
+		nng_aio *sa;
+		H_OK(nng_aio_alloc(&sa, NULL, NULL));
+		nng_aio_set_msg(sa, h_msg(0x03000004u, 0));
+		nng_ctx_send(M.ctx, sa);
+		nng_aio_wait(sa);
+		if (nng_aio_result(sa) != 0)
+			nng_msg_free(nng_aio_get_msg(sa));
 		nng_aio_free(sa);
 	}
 	if (M.kind == K_RECV_SURVEYOR) {
@@ -834,7 +916,7 @@ exec_c02(const vcase *vc)
 				nng_msg_free(nng_aio_get_msg(sa));
 			nng_aio_free(sa);
 		}
-		if (M.kind == K_RECV_REQCTX && !M.have_ctx)
+		if (kind_uses_ctx(M.kind) && !M.have_ctx)
 			break; // the context handle is gone: nothing to submit on
 		M.phase2 = true;
 		int before = M.callbacks;
@@ -958,7 +1040,7 @@ main(int argc, char **argv)
 	sp.id   = "C02";
 	sp.gen  = gen_c02;
 	sp.exec = exec_c02;
-	sp.rule = "one operation of 15 kinds (sleep; receive on pair/pull/sub/rep/bus/surveyor/req-context; blocked send on push/pair; dialer start towards "
+	sp.rule = "one operation of 28 kinds (sleep; receive on pair/pair1/pull/sub/rep/bus/surveyor/respondent sockets, raw rep/sub sockets and req/rep/sub/surveyor contexts; blocked send on push/pair/pair1, queued request on a REQ socket / context without a replier, raw REQ send queue with waiting writers; HTTP transaction and WebSocket dial against a raw server; dialer start towards "
 	          "nobody or a stalling listener; device; nng_stream receive, blocked 8 MiB send and accept over ipc / tcp against a raw peer) on an aio that is fresh, zero-timeout, timed (1..50 ms) or already stopped, optionally re-submitted "
 	          "1-3 times from its callback, raced by 1-4 actors (completer, cancel, abort, stop, wait, close of the underlying object, free) acting at "
 	          "virtual times chosen from {0,1,T-1,T,T+1} under fifo / random / PCT schedules; optionally a crowd of 20..250 sleeps/receives falling due together on the "
